@@ -1484,6 +1484,8 @@ class CircuitTemplate(AbstractBaseTemplate):
         for source, target, template, edge_dict, delayed in edges:
 
             edge_dict = deepcopy(edge_dict)
+            # every edge of a group needs its own weight entry, otherwise the per-edge lists get out of step
+            edge_dict.setdefault('weight', 1.)
 
             # relabel variables according to variable map (accounting for vectorization)
             source_new = self._relabel_var(source, label_map)
